@@ -62,8 +62,8 @@ Fixpoint concat_unary (s : sx) : bool :=
   | STest e _ kw _ | SFilter e _ kw => concat_unary e || kws kw
   | SCall _ kw => kws kw
   | STern c t f => concat_unary c || concat_unary t || concat_unary f
-  | SArr items => existsb (fun p : bool * sx => match p with (_, v) => concat_unary v end) items
-  | SMap es => existsb (fun p : option mkey * sx => match p with (_, v) => concat_unary v end) es
+  | SArr items _ => existsb (fun p : bool * sx => match p with (_, v) => concat_unary v end) items
+  | SMap es _ => existsb (fun p : option mkey * sx => match p with (_, v) => concat_unary v end) es
   | SComp e _ _ t c => concat_unary e || concat_unary t || o c
   end.
 
